@@ -143,10 +143,14 @@ structure Dev where
   /-- html5ever drops DOCTYPE tokens before the insertion-mode dispatch, so "in table text" does not
   flush its pending characters on a DOCTYPE -/
   doctypeEarly : Bool := false
+  /-- §13.2.6.4.13 "in table body", `caption col colgroup tbody tfoot thead` start tags and `</table>`:
+  html5ever tests for `table | tbody | tfoot` in table scope, the standard for `tbody | thead | tfoot`
+  (differs when a `thead` is open directly inside a `template`) -/
+  tableBodyScopeH5 : Bool := false
   deriving DecidableEq, Repr, Inhabited
 
 def Dev.std : Dev := {}
-def Dev.h5 : Dev := ⟨true, true, true, true, true⟩
+def Dev.h5 : Dev := ⟨true, true, true, true, true, true⟩
 
 /-- configuration -/
 structure Cfg where
